@@ -32,7 +32,7 @@ func init() {
 	register(&Rule{ID: "C15.errors", Floor: 8,
 		Text: "each refusing branch returns an error of the documented dynamic type (8-line table)",
 		Run:  c15Errors})
-	register(&Rule{ID: "C15.admin", Floor: 1,
+	register(&Rule{ID: "C15.admin", Floor: 1, Also: []string{"C03"},
 		Text: "the value returned by MemUser.IsAdmin depends only on the user id (no load of the group id in its backward slice)",
 		Run:  c15Admin})
 }
